@@ -195,6 +195,16 @@ class TimeGen(ProgGen):
 
     def spec_expr(self, sc):
         r = self.r
+        if r.random() < 0.35:
+            # plain variable / literal on the left, computed (non-call) expression on the right
+            a = r.choice([self.gvar(), Lit(INT, r.randrange(4)), Bin('%', self.gvar(), Lit(INT, 3, keep=True))])
+            ivs = self.vars_of(sc, lambda v: v.t == INT and not v.glob)
+            if ivs and r.random() < 0.5:
+                a = Var(r.choice(ivs), INT)
+            b = r.choice([Bin('+', Bin('%', self.gvar(), Lit(INT, 3, keep=True)), Lit(INT, r.randrange(3))),
+                          Bin('*', self.gvar(), Lit(INT, r.randint(1, 2))), Un('-', self.gvar()),
+                          Bin('-', self.gvar(), self.gvar()), Lit(INT, r.randrange(4))])
+            return Spec(a, b)
         f = r.choice(self.counters)
         a = Call(f, [Lit(INT, r.randint(0, 3))])
         if f.ret == INT:
